@@ -722,7 +722,8 @@ fn check_canonical(rep: &mut Report, p: &Parts, via: &str, got: &str, replay: &[
     if g.query.is_some() {
         return viol(rep, "leak", "has a query part".into());
     }
-    if g.host != p.host {
+    // "the same host": DNS names and IPv6 hex digits are case-insensitive
+    if !g.host.eq_ignore_ascii_case(&p.host) {
         return viol(rep, "host", format!("host {:?} expected {:?}", g.host, p.host));
     }
     if g.port_num() != p.port_num() {
